@@ -187,6 +187,18 @@ func runConcCase(w *vrt.W, i int, loc *local) {
 			}()
 		}
 		if cf := concJudge(e, cvals, cpanics); cf != nil {
+			if cf.kind == "shared-storage" {
+				// a sequential defect: name the combinator the way the classic cases do
+				for g := range cvals {
+					for k := range cvals[g] {
+						if v := &cvals[g][k]; v.done {
+							if sh := snap.Shared(v.reach, snap.Reachable(v.clone)); len(sh) > 0 {
+								cf.comb, _ = blameShared(e, sh)
+							}
+						}
+					}
+				}
+			}
 			w.Violation(i, "clone."+cf.comb+"/"+cf.kind, "(found by a conc case; the sequential control fails as well)\n"+cf.detail+"\nexpr "+e.Name, witness())
 			return
 		}
